@@ -433,7 +433,7 @@ def main(run):
     info = proof_stage(run, "C07", extra_targets=["corr/C07_corr.vo"])
     harness_build()
     r = run.rng
-    n = 220 if run.tier == "quick" else 4000
+    n = 220 if run.tier == "quick" else 6000
     cases = [finish_case(r, c) for c in load_corpus()]
     cases += [finish_case(r, gen_case(r)) for _ in range(n)]
     evaluate(run, cases)
